@@ -31,6 +31,7 @@ import (
 	"net/url"
 	"runtime"
 	"runtime/debug"
+	"sync"
 	"sync/atomic"
 	"time"
 
@@ -94,6 +95,10 @@ type connectionPool struct {
 
 // circuitBreaker prevents overwhelming failing endpoints
 type circuitBreaker struct {
+	// mu orders the reports of concurrent requests to one endpoint: counting a failure and
+	// tripping the breaker are two stores, and interleaved with a success being recorded they
+	// could leave the breaker open with a cleared count, which a failed probe then cannot re-open
+	mu          sync.Mutex
 	failures    int64 // atomic
 	lastFailure int64 // atomic
 	state       int64 // atomic: 0=closed, 1=open, 2=half-open
@@ -298,6 +303,9 @@ func (s *Service) GetCircuitBreaker(endpoint string) *circuitBreaker {
 
 // Circuit breaker methods
 func (cb *circuitBreaker) IsOpen() bool {
+	cb.mu.Lock()
+	defer cb.mu.Unlock()
+
 	state := atomic.LoadInt64(&cb.state)
 	if state != 1 {
 		return false
@@ -317,11 +325,17 @@ func (cb *circuitBreaker) IsOpen() bool {
 }
 
 func (cb *circuitBreaker) RecordSuccess() {
+	cb.mu.Lock()
+	defer cb.mu.Unlock()
+
 	atomic.StoreInt64(&cb.failures, 0)
 	atomic.StoreInt64(&cb.state, 0) // closed
 }
 
 func (cb *circuitBreaker) RecordFailure() {
+	cb.mu.Lock()
+	defer cb.mu.Unlock()
+
 	failures := atomic.AddInt64(&cb.failures, 1)
 	atomic.StoreInt64(&cb.lastFailure, time.Now().UnixNano())
 
